@@ -8,13 +8,18 @@ RULE = ("TimeArith.tla: instants as mixed-radix triples <<day, sec, ns>> (trunca
         "proleptic Gregorian calendar, NaT-absorbing operators; TLC checks CoarserIsFloor, FinerAndBack, TruncTowardPast, "
         "CalendarRoundTrip and the NaT laws on a grid with the nanosecond range limits, pre-epoch instants not divisible by "
         "the unit ratio, the epoch neighbourhood, leap days; every instant x 4x4 unit pairs is replayed into into_unit / the "
-        "unit casts, the calendar getters, as_cr / From<chrono>, into_opt_i64, and compared with chrono's own reading")
+        "unit casts, the calendar getters, as_cr / From<chrono>, into_opt_i64, and compared with chrono's own reading; the null "
+        "rule of Casts.tla (NullPreserved) is replayed on date-time (all four units) / duration / time-of-day against every "
+        "numeric and optional target type")
 
 
 def run(ctx):
     r = ctx.tlc("time", "MCTime", "MCTime_c16.cfg", workers=4, timeout=900)
     binp = ctx.build("tvh-time")
     ctx.harness("time", binp, ["replay-time", "--in", r["emitted"]])
+    # "NaT converts to None": the null rule of the cast algebra (Casts.tla) on the time types, every unit
+    rc = ctx.tlc("casts", "MCCasts", "MCCasts.cfg", workers=4, timeout=900)
+    ctx.harness("time-casts", binp, ["replay-casts", "--only-time", "--in", rc["emitted"]])
     ctx.assumptions += BASE_ASSUMPTIONS[:1] + [
         "representation map (harness, trusted): <<day, sec, ns>> <-> i64 count of units since the epoch in i128 arithmetic",
         "chrono is the reference calendar the property names; its internals are trusted",
